@@ -88,7 +88,11 @@ MStart(m) == 1 + MOsz(m) + (MN(m) + 1) * MOsz(m)         \* first string byte
 MOff(m, i) == LE(m, 1 + MOsz(m) + i * MOsz(m), MOsz(m))
 MStr(m, i) == SubSeq(m, MStart(m) + MOff(m, i) + 1, MStart(m) + MOff(m, i + 1))
 
-MetaValid(m) ==
+(* `rx` is a set of relaxations used only to identify known findings narrowly: *)
+(*   "utf8-whole"  the string area as a whole is UTF-8, the individual strings  *)
+(*                 need not be (an offset may split a multi-byte character)     *)
+(*   "dup-keys"    the field names of an object need only be non-decreasing     *)
+MetaValidR(m, rx) ==
   /\ Len(m) >= 1
   /\ m[1] % 16 = 1                                        \* version 1
   /\ Len(m) >= 1 + MOsz(m)
@@ -97,8 +101,10 @@ MetaValid(m) ==
   /\ MOff(m, 0) = 0
   /\ \A i \in 0..(MN(m) - 1) : MOff(m, i) <= MOff(m, i + 1)
   /\ MOff(m, MN(m)) < Huge /\ MStart(m) + MOff(m, MN(m)) <= Len(m)
-  /\ \A i \in 0..(MN(m) - 1) : ValidRange(m, MStart(m) + MOff(m, i), MStart(m) + MOff(m, i + 1))
+  /\ IF "utf8-whole" \in rx THEN ValidRange(m, MStart(m), MStart(m) + MOff(m, MN(m)))
+     ELSE \A i \in 0..(MN(m) - 1) : ValidRange(m, MStart(m) + MOff(m, i), MStart(m) + MOff(m, i + 1))
   /\ MSorted(m) => \A i \in 0..(MN(m) - 2) : StrLess(MStr(m, i), MStr(m, i + 1))
+MetaValid(m) == MetaValidR(m, {})
 
 (* the dictionary of a valid metadata                                        *)
 Names(m) == [i \in 1..MN(m) |-> MStr(m, i - 1)]
@@ -163,7 +169,7 @@ PrimSize(v, p, e, t) ==      \* p: position of the value_metadata byte
        ELSE IF t = 10 /\ ~DecimalOK(v, p + 1, 16) THEN -1
        ELSE 1 + w
 
-RECURSIVE VSize(_, _, _, _)
+RECURSIVE VSizeR(_, _, _, _, _)
 
 (* container header fields                                                   *)
 COsz(vh) == (vh % 4) + 1
@@ -171,7 +177,7 @@ ArrLarge(vh) == (vh \div 4) % 2 = 1
 ObjIsz(vh) == ((vh \div 4) % 4) + 1
 ObjLarge(vh) == (vh \div 16) % 2 = 1
 
-ArrSize(m, v, p, e, vh) ==
+ArrSize(m, v, p, e, vh, rx) ==
   LET osz == COsz(vh)
       nsz == IF ArrLarge(vh) THEN 4 ELSE 1
   IN IF ~Has(v, p + 1, nsz, e) THEN -1
@@ -184,10 +190,10 @@ ArrSize(m, v, p, e, vh) ==
                ELSE IF Off(0) # 0 THEN -1
                ELSE IF \E i \in 0..(n - 1) : Off(i) > Off(i + 1) THEN -1
                ELSE IF Off(n) >= Huge \/ vs + Off(n) > e THEN -1
-               ELSE IF \E i \in 0..(n - 1) : VSize(m, v, vs + Off(i), vs + Off(i + 1)) = -1 THEN -1
+               ELSE IF \E i \in 0..(n - 1) : VSizeR(m, v, vs + Off(i), vs + Off(i + 1), rx) = -1 THEN -1
                ELSE vs + Off(n) - p
 
-ObjSize(m, v, p, e, vh) ==
+ObjSize(m, v, p, e, vh, rx) ==
   LET osz == COsz(vh)
       isz == ObjIsz(vh)
       nsz == IF ObjLarge(vh) THEN 4 ELSE 1
@@ -201,22 +207,25 @@ ObjSize(m, v, p, e, vh) ==
                    Off(i) == LE(v, o0 + i * osz, osz) IN
                IF vs > e THEN -1
                ELSE IF \E i \in 0..(n - 1) : Id(i) >= MN(m) THEN -1
-               ELSE IF \E i \in 0..(n - 2) : ~StrLess(MStr(m, Id(i)), MStr(m, Id(i + 1))) THEN -1
+               ELSE IF \E i \in 0..(n - 2) : ~(StrLess(MStr(m, Id(i)), MStr(m, Id(i + 1)))
+                                                  \/ ("dup-keys" \in rx /\ MStr(m, Id(i)) = MStr(m, Id(i + 1)))) THEN -1
                ELSE IF Off(n) >= Huge \/ vs + Off(n) > e THEN -1
-               ELSE IF \E i \in 0..(n - 1) : Off(i) >= Off(n) \/ VSize(m, v, vs + Off(i), vs + Off(n)) = -1 THEN -1
+               ELSE IF \E i \in 0..(n - 1) : Off(i) >= Off(n) \/ VSizeR(m, v, vs + Off(i), vs + Off(n), rx) = -1 THEN -1
                ELSE vs + Off(n) - p
 
-VSize(m, v, p, e) ==
+VSizeR(m, v, p, e, rx) ==
   IF p >= e THEN -1
   ELSE LET h == Byte(v, p)
            bt == h % 4
            vh == h \div 4
        IN CASE bt = 0 -> PrimSize(v, p, e, vh)
             [] bt = 1 -> IF Has(v, p + 1, vh, e) /\ ValidRange(v, p + 1, p + 1 + vh) THEN 1 + vh ELSE -1
-            [] bt = 2 -> ObjSize(m, v, p, e, vh)
-            [] OTHER  -> ArrSize(m, v, p, e, vh)
+            [] bt = 2 -> ObjSize(m, v, p, e, vh, rx)
+            [] OTHER  -> ArrSize(m, v, p, e, vh, rx)
+VSize(m, v, p, e) == VSizeR(m, v, p, e, {})
 
 ValueValid(m, v) == VSize(m, v, 0, Len(v)) # -1
+VariantValidR(m, v, rx) == MetaValidR(m, rx) /\ VSizeR(m, v, 0, Len(v), rx) # -1
 VariantValid(m, v) == MetaValid(m) /\ ValueValid(m, v)
 (* valid and without trailing bytes                                          *)
 Tight(m, v) == MetaValid(m) /\ VSize(m, v, 0, Len(v)) = Len(v)
